@@ -11,7 +11,8 @@ Open Scope Z_scope.
 Definition dpc_eqb (a b : dpc) : bool :=
   match a, b with
   | DStart, DStart | DJoin, DJoin | DAcq, DAcq | DIsSet, DIsSet | DAlive, DAlive | DTerm, DTerm
-  | DJoin2, DJoin2 | DPutTimeout, DPutTimeout | DPutDied, DPutDied | DRel, DRel | DEnd, DEnd => true
+  | DJoinG, DJoinG | DAlive2, DAlive2 | DKill, DKill | DJoin3, DJoin3
+  | DPutTimeout, DPutTimeout | DPutDied, DPutDied | DRel, DRel | DEnd, DEnd => true
   | _, _ => false
   end.
 Definition tpc_eqb (a b : tpc) : bool :=
@@ -24,7 +25,8 @@ Definition tpc_eqb (a b : tpc) : bool :=
 Definition cfg_eqb (a b : cfg) : bool :=
   dpc_eqb (c_d a) (c_d b) && tpc_eqb (c_t a) (c_t b) && eqb_option party_eqb (c_lock a) (c_lock b)
   && Bool.eqb (c_done a) (c_done b) && Bool.eqb (c_exp a) (c_exp b)
-  && eqb_list rk_eqb (c_q a) (c_q b) && Bool.eqb (c_rep a) (c_rep b) && Bool.eqb (c_kill a) (c_kill b).
+  && eqb_list rk_eqb (c_q a) (c_q b) && Bool.eqb (c_rep a) (c_rep b) && Bool.eqb (c_kill a) (c_kill b)
+  && Bool.eqb (c_term a) (c_term b) && Bool.eqb (c_exp2 a) (c_exp2 b) && Bool.eqb (c_bad a) (c_bad b).
 
 Lemma dpc_eqb_eq a b : dpc_eqb a b = true <-> a = b.
 Proof. destruct a, b; simpl; split; intro H; try reflexivity; discriminate. Qed.
@@ -57,67 +59,69 @@ Proof.
   apply cfg_eqb_eq in He. subst. exact Hx.
 Qed.
 
-Definition choices : list choice := [CD; CT; CX].
+Definition choices : list choice := [CD; CT; CX; CK].
 
-Definition succs (p : pay) (timed : bool) (c : cfg) : list cfg :=
-  map (fun ch => fst (sstep p timed c ch)) choices.
+Definition succs (p : pay) (timed : bool) (sg : sigr) (c : cfg) : list cfg :=
+  map (fun ch => fst (sstep p timed sg c ch)) choices.
 
 Definition add_all (l seen : list cfg) : list cfg :=
   fold_left (fun acc c => if memc c acc then acc else acc ++ [c]) l seen.
 
-Fixpoint explore (fuel : nat) (p : pay) (timed : bool) (frontier seen : list cfg) : list cfg :=
+Fixpoint explore (fuel : nat) (p : pay) (timed : bool) (sg : sigr) (frontier seen : list cfg) : list cfg :=
   match fuel with
   | O => seen
   | S f =>
-      let seen' := add_all (concat (map (succs p timed) frontier)) seen in
+      let seen' := add_all (concat (map (succs p timed sg) frontier)) seen in
       match skipn (length seen) seen' with
       | [] => seen
-      | new => explore f p timed new seen'
+      | new => explore f p timed sg new seen'
       end
   end.
 
 (* every configuration any schedule can reach *)
-Definition reach (p : pay) (timed : bool) : list cfg := explore 200 p timed [cinit] [cinit].
+Definition reach (p : pay) (timed : bool) (sg : sigr) : list cfg := explore 200 p timed sg [cinit] [cinit].
 
-Definition closedb (p : pay) (timed : bool) : bool :=
-  forallb (fun c => forallb (fun ch => memc (fst (sstep p timed c ch)) (reach p timed)) choices)
-          (reach p timed).
+Definition closedb (p : pay) (timed : bool) (sg : sigr) : bool :=
+  forallb (fun c => forallb (fun ch => memc (fst (sstep p timed sg c ch)) (reach p timed sg)) choices)
+          (reach p timed sg).
 
-Lemma reach_closed_b : forall p timed, closedb p timed = true.
-Proof. intros [] []; vm_compute; reflexivity. Qed.
+Lemma reach_closed_b : forall p timed sg, closedb p timed sg = true.
+Proof. intros [] [] []; vm_compute; reflexivity. Qed.
 
-Lemma reach_init : forall p timed, In cinit (reach p timed).
-Proof. intros p timed. apply memc_In. destruct p, timed; vm_compute; reflexivity. Qed.
+Lemma reach_init : forall p timed sg, In cinit (reach p timed sg).
+Proof. intros p timed sg. apply memc_In. destruct p, timed, sg; vm_compute; reflexivity. Qed.
 
-Lemma reach_step p timed c ch :
-  In c (reach p timed) -> In (fst (sstep p timed c ch)) (reach p timed).
+Lemma reach_step p timed sg c ch :
+  In c (reach p timed sg) -> In (fst (sstep p timed sg c ch)) (reach p timed sg).
 Proof.
-  intro H. pose proof (reach_closed_b p timed) as Hc. unfold closedb in Hc.
+  intro H. pose proof (reach_closed_b p timed sg) as Hc. unfold closedb in Hc.
   rewrite forallb_forall in Hc. specialize (Hc c H). rewrite forallb_forall in Hc.
   apply memc_In, Hc. destruct ch; simpl; auto.
 Qed.
 
-Lemma reach_srun p timed : forall s c,
-  In c (reach p timed) -> In (fst (srun_race p timed c s)) (reach p timed).
+Lemma reach_srun p timed sg : forall s c,
+  In c (reach p timed sg) -> In (fst (srun_race p timed sg c s)) (reach p timed sg).
 Proof.
   induction s as [|ch r IH]; intros c H; simpl; [exact H|].
-  pose proof (reach_step p timed c ch H) as H1.
-  destruct (sstep p timed c ch) as [c1 t1]. simpl in H1.
-  specialize (IH c1 H1). destruct (srun_race p timed c1 r) as [c2 t2]. exact IH.
+  pose proof (reach_step p timed sg c ch H) as H1.
+  destruct (sstep p timed sg c ch) as [c1 t1]. simpl in H1.
+  specialize (IH c1 H1). destruct (srun_race p timed sg c1 r) as [c2 t2]. exact IH.
 Qed.
 
 (* history flags agree with the trace *)
-Lemma sstep_flags p timed c ch :
-  c_rep (fst (sstep p timed c ch)) = c_rep c || t_reported (snd (sstep p timed c ch)) /\
-  c_kill (fst (sstep p timed c ch)) = c_kill c || t_was_killed (snd (sstep p timed c ch)).
+Lemma sstep_flags p timed sg c ch :
+  c_rep (fst (sstep p timed sg c ch)) = c_rep c || t_reported (snd (sstep p timed sg c ch)) /\
+  c_kill (fst (sstep p timed sg c ch)) = c_kill c || t_was_killed (snd (sstep p timed sg c ch)).
 Proof.
-  destruct c as [d t l dn e q rp kl]. destruct ch; simpl.
+  destruct c as [d t l dn e q rp kl tm e2 bd]. destruct ch; simpl.
   - destruct (enabledD timed _); [|simpl; rewrite !orb_false_r; auto].
     destruct d; simpl; try destruct dn; try destruct (negb (t_dead t)); simpl;
       rewrite ?orb_false_r, ?orb_true_r; auto.
   - destruct (enabledT p _); [|simpl; rewrite !orb_false_r; auto].
     destruct t; simpl; rewrite ?orb_false_r, ?orb_true_r; auto.
-  - destruct (timed && negb e); simpl; rewrite !orb_false_r; auto.
+  - destruct (timed && negb e); simpl; [rewrite !orb_false_r; auto|].
+    destruct d; simpl; try destruct e2; simpl; rewrite !orb_false_r; auto.
+  - destruct (tm && negb (t_dead t)); simpl; rewrite !orb_false_r; auto.
 Qed.
 
 Lemma t_reported_app a b : t_reported (a ++ b) = t_reported a || t_reported b.
@@ -125,26 +129,26 @@ Proof. unfold t_reported. apply existsb_app. Qed.
 Lemma t_was_killed_app a b : t_was_killed (a ++ b) = t_was_killed a || t_was_killed b.
 Proof. unfold t_was_killed. apply existsb_app. Qed.
 
-Lemma srun_flags p timed : forall s c,
-  c_rep (fst (srun_race p timed c s)) = c_rep c || t_reported (snd (srun_race p timed c s)) /\
-  c_kill (fst (srun_race p timed c s)) = c_kill c || t_was_killed (snd (srun_race p timed c s)).
+Lemma srun_flags p timed sg : forall s c,
+  c_rep (fst (srun_race p timed sg c s)) = c_rep c || t_reported (snd (srun_race p timed sg c s)) /\
+  c_kill (fst (srun_race p timed sg c s)) = c_kill c || t_was_killed (snd (srun_race p timed sg c s)).
 Proof.
   induction s as [|ch r IH]; intro c; simpl; [rewrite !orb_false_r; auto|].
-  destruct (sstep_flags p timed c ch) as [A1 A2].
-  destruct (sstep p timed c ch) as [c1 t1]. simpl in A1, A2.
-  destruct (IH c1) as [B1 B2]. destruct (srun_race p timed c1 r) as [c2 t2]. simpl in *.
+  destruct (sstep_flags p timed sg c ch) as [A1 A2].
+  destruct (sstep p timed sg c ch) as [c1 t1]. simpl in A1, A2.
+  destruct (IH c1) as [B1 B2]. destruct (srun_race p timed sg c1 r) as [c2 t2]. simpl in *.
   rewrite t_reported_app, t_was_killed_app, B1, B2, A1, A2, !orb_assoc. auto.
 Qed.
 
-Lemma finish_flags p timed : forall fuel c,
-  c_rep (fst (finish fuel p timed c)) = c_rep c || t_reported (snd (finish fuel p timed c)) /\
-  c_kill (fst (finish fuel p timed c)) = c_kill c || t_was_killed (snd (finish fuel p timed c)).
+Lemma finish_flags p timed sg : forall fuel c,
+  c_rep (fst (finish fuel p timed sg c)) = c_rep c || t_reported (snd (finish fuel p timed sg c)) /\
+  c_kill (fst (finish fuel p timed sg c)) = c_kill c || t_was_killed (snd (finish fuel p timed sg c)).
 Proof.
   induction fuel as [|f IH]; intro c; simpl; [rewrite !orb_false_r; auto|].
   destruct (policy p timed c) as [ch|]; [|simpl; rewrite !orb_false_r; auto].
-  destruct (sstep_flags p timed c ch) as [A1 A2].
-  destruct (sstep p timed c ch) as [c1 t1]. simpl in A1, A2.
-  destruct (IH c1) as [B1 B2]. destruct (finish f p timed c1) as [c2 t2]. simpl in *.
+  destruct (sstep_flags p timed sg c ch) as [A1 A2].
+  destruct (sstep p timed sg c ch) as [c1 t1]. simpl in A1, A2.
+  destruct (IH c1) as [B1 B2]. destruct (finish f p timed sg c1) as [c2 t2]. simpl in *.
   rewrite t_reported_app, t_was_killed_app, B1, B2, A1, A2, !orb_assoc. auto.
 Qed.
 
@@ -161,31 +165,69 @@ Definition truthful_state (p : pay) (c : cfg) (k : rk) : bool :=
 Definition ok_cfg (p : pay) (c : cfg) : bool :=
   finished c && ok_one (c_q c) && forallb (truthful_state p c) (c_q c).
 
-(* from every reachable configuration the completion policy ends in a good one
-   (a request whose call never ends needs a timeout) *)
+(* a request whose call never ends needs a timeout *)
 Definition allowed (p : pay) (timed : bool) : bool :=
   match p with PayHang => timed | _ => true end.
 
-Definition finish_ok_b (p : pay) (timed : bool) : bool :=
-  forallb (fun c => ok_cfg p (fst (finish race_fuel p timed c))) (reach p timed).
+(* from every reachable configuration the completion policy ends in a good one *)
+Definition finish_ok_b (p : pay) (timed : bool) (sg : sigr) : bool :=
+  forallb (fun c => ok_cfg p (fst (finish race_fuel p timed sg c))) (reach p timed sg).
 
-Lemma finish_ok : forall p timed, allowed p timed = true -> finish_ok_b p timed = true.
-Proof. intros [] [] H; try discriminate H; vm_compute; reflexivity. Qed.
+Lemma finish_ok : forall p timed sg, allowed p timed = true -> finish_ok_b p timed sg = true.
+Proof. intros [] [] [] H; try discriminate H; vm_compute; reflexivity. Qed.
 
-Theorem race_ok p timed s :
+(* in NO reachable configuration has the dispatcher reported a result while the
+   task process still existed -- with or without a timeout, whatever the payload
+   does and however it reacts to SIGTERM *)
+Definition never_bad_b (p : pay) (timed : bool) (sg : sigr) : bool :=
+  forallb (fun c => negb (c_bad c)) (reach p timed sg).
+
+Lemma never_bad : forall p timed sg, never_bad_b p timed sg = true.
+Proof. intros [] [] []; vm_compute; reflexivity. Qed.
+
+Lemma reach_finish p timed sg : forall fuel c,
+  In c (reach p timed sg) -> In (fst (finish fuel p timed sg c)) (reach p timed sg).
+Proof.
+  induction fuel as [|f IH]; intros c H; simpl; [exact H|].
+  destruct (policy p timed c) as [ch|]; [|exact H].
+  pose proof (reach_step p timed sg c ch H) as H1.
+  destruct (sstep p timed sg c ch) as [c1 t1]. simpl in H1.
+  specialize (IH c1 H1). destruct (finish f p timed sg c1) as [c2 t2]. exact IH.
+Qed.
+
+Theorem race_reachable p timed sg s : In (fst (race p timed sg s)) (reach p timed sg).
+Proof.
+  unfold race. pose proof (reach_srun p timed sg s cinit (reach_init p timed sg)) as Hr.
+  destruct (srun_race p timed sg cinit s) as [c1 t1]. simpl in Hr.
+  pose proof (reach_finish p timed sg race_fuel c1 Hr) as Hf.
+  destruct (finish race_fuel p timed sg c1) as [c2 t2]. exact Hf.
+Qed.
+
+(* reported only after the process is gone: at every point of every schedule
+   (every prefix of a schedule is a schedule) *)
+Theorem race_never_reported_while_alive p timed sg s :
+  c_bad (fst (srun_race p timed sg cinit s)) = false /\ c_bad (fst (race p timed sg s)) = false.
+Proof.
+  pose proof (never_bad p timed sg) as Hb. unfold never_bad_b in Hb. rewrite forallb_forall in Hb.
+  split; apply negb_true_iff, Hb.
+  - apply reach_srun, reach_init.
+  - apply race_reachable.
+Qed.
+
+Theorem race_ok p timed sg s :
   allowed p timed = true ->
-  finished (fst (race p timed s)) = true /\
-  ok_one (c_q (fst (race p timed s))) = true /\
-  forallb (truthful_rk p (snd (race p timed s))) (c_q (fst (race p timed s))) = true.
+  finished (fst (race p timed sg s)) = true /\
+  ok_one (c_q (fst (race p timed sg s))) = true /\
+  forallb (truthful_rk p (snd (race p timed sg s))) (c_q (fst (race p timed sg s))) = true.
 Proof.
   intro Ha. unfold race.
-  pose proof (reach_srun p timed s cinit (reach_init p timed)) as Hr.
-  destruct (srun_flags p timed s cinit) as [F1 F2].
-  destruct (srun_race p timed cinit s) as [c1 t1]. simpl in Hr, F1, F2.
-  pose proof (finish_ok p timed Ha) as Hf. unfold finish_ok_b in Hf.
+  pose proof (reach_srun p timed sg s cinit (reach_init p timed sg)) as Hr.
+  destruct (srun_flags p timed sg s cinit) as [F1 F2].
+  destruct (srun_race p timed sg cinit s) as [c1 t1]. simpl in Hr, F1, F2.
+  pose proof (finish_ok p timed sg Ha) as Hf. unfold finish_ok_b in Hf.
   rewrite forallb_forall in Hf. specialize (Hf c1 Hr).
-  destruct (finish_flags p timed race_fuel c1) as [G1 G2].
-  destruct (finish race_fuel p timed c1) as [c2 t2]. simpl in *.
+  destruct (finish_flags p timed sg race_fuel c1) as [G1 G2].
+  destruct (finish race_fuel p timed sg c1) as [c2 t2]. simpl in *.
   unfold ok_cfg in Hf. apply andb_true_iff in Hf as [Hf H3]. apply andb_true_iff in Hf as [H1 H2].
   split; [exact H1|]. split; [exact H2|].
   rewrite forallb_forall in H3. apply forallb_forall. intros k Hk. specialize (H3 k Hk).
@@ -205,13 +247,13 @@ Lemma watcher_after_one k : k <> ROther ->
     EvResult 2 (Some 0) false [false; false] []], true).
 Proof. destruct k; intro H; try (exfalso; apply H; reflexivity); vm_compute; reflexivity. Qed.
 
-Theorem race_then_watcher p timed s :
+Theorem race_then_watcher p timed sg s :
   allowed p timed = true ->
-  let '(st, evs, alive) := watcher wst2 (feed (c_q (fst (race p timed s)))) in
+  let '(st, evs, alive) := watcher wst2 (feed (c_q (fst (race p timed sg s)))) in
   alive = true /\ returned_uids evs = [1; 2] /\ w_cb st = [false; false] /\ w_pool st = [].
 Proof.
-  intro Ha. destruct (race_ok p timed s Ha) as (_ & H1 & H2).
-  destruct (c_q (fst (race p timed s))) as [|k [|k2 r]]; try discriminate H1.
+  intro Ha. destruct (race_ok p timed sg s Ha) as (_ & H1 & H2).
+  destruct (c_q (fst (race p timed sg s))) as [|k [|k2 r]]; try discriminate H1.
   assert (Hk : k <> ROther).
   { intro; subst. simpl in H2. discriminate. }
   rewrite (watcher_after_one k Hk). auto.
